@@ -10,9 +10,11 @@ either needs bytes (`Res.stop`, the `yield None` that reaches the caller of `par
 (`Res.stop` with `gen = .none`), dies (`gen = .dead`) or moves to the next position (`Res.cont`).
 `pump` iterates `stepOn`; `feed` is `msg.extend(b); parse()`.
 
-* An `HTTPException` raised in `parseHead`/`parseBody` is caught by `parseMessage`:
-  `errored = True`, `ended = True`.  Any other exception leaves `parse()`: `gen = .dead`,
-  `escaped = some e`; the next `parse()` raises `StopIteration`.
+* An `HTTPException` — and, as repaired by fixes/D18-parsemessage-valueerror.patch, a `ValueError`
+  (`int()`, `.decode('ascii')`, `urlsplit`, the chunk end test) — raised in `parseHead`/`parseBody`
+  is caught by `parseMessage`: `errored = True`, `ended = True`.  With `catchVE = false` (the
+  unrepaired tree) a `ValueError` leaves `parse()`: `gen = .dead`, `escaped = some e`; the next
+  `parse()` raises `StopIteration`.
 * The `if self.closed …: raise PrematureClosure` tests sit in the `while True:` loops that drive the
   sub-generators, so they run when such a loop is entered and every time `parse()` resumes it
   (`resumeCheck`), not once per header line.
@@ -52,6 +54,7 @@ def sHEAD : Bytes := [72, 69, 65, 68]
 structure Core where
   kind : Kind
   max : Nat := 65536                      -- `MAX_LINE_SIZE`
+  catchVE : Bool := true                  -- `except (HTTPException, ValueError)` (fixes/D18-…); false = the unrepaired `except HTTPException`
   version : Option (Nat × Nat) := none
   length : Option Nat := none
   chunked : Option Bool := none
@@ -95,8 +98,10 @@ def httpFail (c : Core) (buf : Bytes) : Res :=
 def escape (c : Core) (e : Exc) (buf : Bytes) : Res :=
   .stop { c with gen := .dead, escaped := some e } buf
 
+/-- `raise` inside `parseHead`/`parseBody`: caught by `parseMessage` when it is an `HTTPException`
+or (repaired tree) a `ValueError`; `UnicodeDecodeError` is a `ValueError` -/
 def raise (c : Core) (e : Exc) (buf : Bytes) : Res :=
-  if e.isHttp then httpFail c buf else escape c e buf
+  if e.isHttp || c.catchVE then httpFail c buf else escape c e buf
 
 /-- end of `parseBody` (`self.length = len(self.body)`) and of `parseMessage` -/
 def finishBody (c : Core) (buf : Bytes) : Res :=
@@ -312,6 +317,13 @@ def chunkDone (c : Core) (pm : Parms) (chunk : Bytes) (buf : Bytes) : Res :=
   let c := { c with parms := updParms c.parms pm, body := c.body ++ chunk }
   if closedCond c buf then finishBody c buf else .cont { c with gen := .chunkSize } buf
 
+/-- `Requestant`: `(1, 0)` for `HTTP/1.0…`, else `(1, 1)` -/
+def reqVersion (v : Bytes) : Option (Nat × Nat) :=
+  if startsWith sHTTP10 v then some (1, 0) else some (1, 1)
+
+/-- `if trails: self.trails = trails` -/
+def trailsOf (old : Option Hdrs) (h : Hdrs) : Option Hdrs := if h = [] then old else some h
+
 /-- Python `raw[:size]` / `del raw[:size]` for an int `size` of either sign -/
 def sliceTo (raw : Bytes) (size : Int) : Bytes × Bytes :=
   if size ≥ 0 then (raw.take size.toNat, raw.drop size.toNat)
@@ -342,7 +354,7 @@ def stepOn (c : Core) (buf : Bytes) : Res :=
         | .ok (m, url, ver) =>
           let c := { c with method := m, url := strip url }
           if ¬ startsWith sHTTP1 ver then raise c .unknownProtocol rest else
-          let c := { c with version := if startsWith sHTTP10 ver then some (1, 0) else some (1, 1) }
+          let c := { c with version := reqVersion ver }
           match urlCheck c.url with
           | .valueError => raise c .valueError rest
           | .outside => .stop { c with gen := .unmodelled } rest
@@ -386,8 +398,7 @@ def stepOn (c : Core) (buf : Bytes) : Res :=
     | .err e rest => raise c e rest
     | .more h' rest => .cont { c with gen := .chunkTrailer pm h' } rest
     | .done h rest =>
-      let c := { c with parms := updParms c.parms pm,
-                        trails := if h = [] then c.trails else some h }
+      let c := { c with parms := updParms c.parms pm, trails := trailsOf c.trails h }
       finishBody c rest
   | .chunkData size pm =>
     if (buf.length : Int) < size then .stop c buf
